@@ -5,7 +5,7 @@ package go9p
 type vxLogRec struct {
 	id    int
 	owner int // 1 or 2; 0 = logged without an owner
-	typ   int // 1, 2 or 3 (3 shares bits with both)
+	typ   int // DbgLogFcalls (4), DbgLogPackets (8) or 12 (shares bits with both, equals neither)
 }
 
 func vxLogMatch(r vxLogRec, owner int, typ int) bool {
@@ -77,17 +77,17 @@ func vxH20Ring(N int, nops int) {
 	var kept, keptCopy [][]*Log // earlier Filter results and what they held when they were returned
 	for i := 0; i < nops; i++ {
 		if op := vxChoose("op", 5); op < 2 || op == 4 {
-			// owner A, B or none, symbolic type in {1,2,3}: 3 shares bits with 1 and 2 and equals neither
+			// owner A, B or none, symbolic type among the library's own DbgLogFcalls, DbgLogPackets and their union (which shares bits with both and equals neither)
 			typ := vxInt("type")
-			vxAssume(vxAll(typ >= 1, typ <= 3))
+			vxAssume(vxAny(typ == DbgLogFcalls, typ == DbgLogPackets, typ == DbgLogFcalls|DbgLogPackets))
 			r := vxLogRec{id: len(logged), owner: (1 + op) % 5, typ: typ}
 			logged = append(logged, r)
 			l.Log(r.id, vxOwnerVal(r.owner), r.typ)
 		} else {
-			// owner nil or A, symbolic type in {0,1,2,3}
+			// owner nil or A, symbolic type among 0 (any) and the three above
 			owner := op - 2
 			typ := vxInt("ftype")
-			vxAssume(vxAll(typ >= 0, typ <= 3))
+			vxAssume(vxAny(typ == 0, typ == DbgLogFcalls, typ == DbgLogPackets, typ == DbgLogFcalls|DbgLogPackets))
 			res := l.Filter(vxOwnerVal(owner), typ)
 			vxCheckFilter(res, logged, owner, typ, N, false)
 			kept = append(kept, res)
@@ -101,7 +101,7 @@ func vxH20Ring(N int, nops int) {
 	}
 	owner := vxChoose("fowner", 3)
 	typ := vxInt("ftype")
-	vxAssume(vxAll(typ >= 0, typ <= 3))
+	vxAssume(vxAny(typ == 0, typ == DbgLogFcalls, typ == DbgLogPackets, typ == DbgLogFcalls|DbgLogPackets))
 	res := l.Filter(vxOwnerVal(owner), typ)
 	vxCheckFilter(res, logged, owner, typ, N, true)
 	// a result that was returned stays what it was: later Log/Filter calls do not rewrite it
@@ -171,14 +171,14 @@ func vxH20Burst(N int, n int) {
 	l := NewLogger(N)
 	var logged []vxLogRec
 	for i := 0; i < n; i++ {
-		r := vxLogRec{id: i, owner: 1 + i%2, typ: 1 + (i/2)%3}
+		r := vxLogRec{id: i, owner: 1 + i%2, typ: []int{DbgLogFcalls, DbgLogPackets, DbgLogFcalls | DbgLogPackets}[(i/2)%3]}
 		logged = append(logged, r)
 		l.Log(r.id, vxOwnerVal(r.owner), r.typ)
 	}
 	vxQuiesce()
 	owner := vxChoose("fowner", 3)
 	typ := vxInt("ftype")
-	vxAssume(vxAll(typ >= 0, typ <= 3))
+	vxAssume(vxAny(typ == 0, typ == DbgLogFcalls, typ == DbgLogPackets, typ == DbgLogFcalls|DbgLogPackets))
 	res := l.Filter(vxOwnerVal(owner), typ)
 	vxCheckFilter(res, logged, owner, typ, N, true)
 	vxReach("final")
@@ -190,7 +190,7 @@ func vxH20FilterConc(N int, n int, callers int) {
 	l := NewLogger(N)
 	var logged []vxLogRec
 	for i := 0; i < n; i++ {
-		r := vxLogRec{id: i, owner: i % 3, typ: 1 + (i/2)%3}
+		r := vxLogRec{id: i, owner: i % 3, typ: []int{DbgLogFcalls, DbgLogPackets, DbgLogFcalls | DbgLogPackets}[(i/2)%3]}
 		logged = append(logged, r)
 		l.Log(r.id, vxOwnerVal(r.owner), r.typ)
 	}
@@ -201,7 +201,7 @@ func vxH20FilterConc(N int, n int, callers int) {
 	}
 	out := make(chan ans, callers)
 	for c := 0; c < callers; c++ {
-		owner, typ := c%3, (c+1)%4
+		owner, typ := c%3, []int{0, DbgLogFcalls, DbgLogPackets, DbgLogFcalls | DbgLogPackets}[(c+1)%4]
 		go func() {
 			out <- ans{owner, typ, l.Filter(vxOwnerVal(owner), typ)}
 		}()
